@@ -86,6 +86,12 @@ type Conn struct {
 	LastReadN int
 	// WriteN records the accepted byte count of the first 16 Write calls.
 	WriteN []int
+	// linger: value of the last SetLinger call (lingerSet false = never called)
+	linger    int
+	lingerSet bool
+	// Discarded counts bytes that Write at this end had accepted and that an abortive close
+	// (SetLinger(0) + Close) threw away before the peer read them.
+	Discarded int
 	// FirstErrAt is the instant of the first operation at this end that
 	// returned an error or a short count (zero = none yet).
 	FirstErrAt time.Time
@@ -509,6 +515,18 @@ func (c *Conn) Close() error {
 	} else {
 		c.peer.inEOF = true
 	}
+	if c.lingerSet && c.linger == 0 && !c.peer.closed {
+		// SO_LINGER with a zero timeout: the close is abortive, whatever this end has written and the
+		// peer has not yet received is thrown away and the peer sees a reset. The simulated link has
+		// no separate send queue, so "not yet received" is "not yet read by the peer" (worst case).
+		n := c.peer.queuedLocked()
+		if n > 0 {
+			c.Discarded += n
+			c.peer.in = nil
+			c.logf("close#%d: abortive (linger 0): %d accepted bytes discarded", idx, n)
+		}
+		c.peer.inRST = true
+	}
 	c.in = nil
 	c.signal()
 	c.peer.signal()
@@ -518,6 +536,17 @@ func (c *Conn) Close() error {
 		return f.Err
 	}
 	c.logf("close#%d -> ok", idx)
+	return nil
+}
+
+// SetLinger records SO_LINGER (see Close). It fails on a closed connection like the real call.
+func (c *Conn) SetLinger(sec int) error {
+	c.mu.Lock()
+	defer c.mu.Unlock()
+	if c.closed {
+		return c.ClosedErr("set")
+	}
+	c.linger, c.lingerSet = sec, true
 	return nil
 }
 
